@@ -233,6 +233,9 @@ func clampI(v, lo, hi int64) int64 {
 // finish: end-of-history checks (C02-R6 / C11 bounded progress).
 func (m *Mon) finish(r *Run) {
 	s := r.pre
+	for _, f := range m.atFinish {
+		f(r)
+	}
 	for id, le := range m.reqs {
 		if le.Status == "pending" && le.ExpH < s.Height {
 			m.fail(nil, "C11", "bounded-progress", "", "request %.24s.. (expiry %d) still unsettled at height %d", id, le.ExpH, s.Height)
